@@ -164,8 +164,9 @@ func runC02own(c *core.Ctx) {
 		}
 		// status passed to the resolving calls is the one obtained for the same lock
 		var closure *ssa.Function
-		for _, af := range resolveLocks.AnonFuncs {
-			if containsCall(af, core.CallsTo(gfl)) && af.Signature.Params().Len() == 2 {
+		for _, af := range core.FuncsIn(resolveLocks)[1:] { // closures, and functions the pinned tree does not have
+			np := af.Signature.Params().Len()
+			if containsCall(af, core.CallsTo(gfl)) && np == 2 {
 				closure = af
 			}
 		}
@@ -183,7 +184,7 @@ func runC02own(c *core.Ctx) {
 					okL := len(ld) == 1 && (ld[0] == "param#0" || strings.Contains(ld[0], "param#0"))
 					okS := len(sd) > 0
 					for _, d := range sd {
-						if !strings.Contains(d, "getTxnStatusFromLock)#0") && !strings.Contains(d, "resolveAsyncCommitLock)#0") && !glob("*resolveLocks$*", d) && d != "zero(txnlock.TxnStatus)" && d != "nil" && !strings.Contains(d, "new(txnlock.TxnStatus)") {
+						if !strings.Contains(d, "getTxnStatusFromLock)#0") && !strings.Contains(d, "resolveAsyncCommitLock)#0") && !glob("*resolveLocks$*", d) && !strings.Contains(d, "call("+core.FuncName(closure)+")#0") && d != "zero(txnlock.TxnStatus)" && d != "nil" && !strings.Contains(d, "new(txnlock.TxnStatus)") {
 							okS = false
 						}
 					}
@@ -213,8 +214,9 @@ func runC02own(c *core.Ctx) {
 	{
 		a := rule(c, "C02.R3")
 		var closure *ssa.Function
-		for _, af := range resolveLocks.AnonFuncs {
-			if containsCall(af, core.CallsTo(gfl)) && af.Signature.Params().Len() == 2 {
+		for _, af := range core.FuncsIn(resolveLocks)[1:] { // closures, and functions the pinned tree does not have
+			np := af.Signature.Params().Len()
+			if containsCall(af, core.CallsTo(gfl)) && np == 2 {
 				closure = af
 			}
 		}
@@ -240,7 +242,7 @@ func runC02own(c *core.Ctx) {
 				}
 				n++
 				okk, w, _ := condMust(c, closure, nil, func(x ssa.Instruction) bool { return x == in }, func(ssa.Instruction) bool { return false }, []string{
-					"T:(const(0) == fld(TxnStatus.ttl,*", "T:invoke(oracle.Oracle.IsExpired)#0*", "T:(fld(LockResolver.store,recv) == nil)",
+					"T:(const(0) == fld(TxnStatus.ttl,*", "T:invoke(oracle.Oracle.IsExpired)#0*", "T:(fld(LockResolver.store,*) == nil)",
 				})
 				a.check(okk, fname(closure)+" lock removal needs ttl==0 or expiry", in, "", "a lock whose transaction is alive (status ttl ≠ 0, not expired on the resolver's clock) can be resolved / rolled back: "+a.w(w))
 			})
